@@ -545,6 +545,33 @@ fn more_programs() -> Vec<(String, String, String)> {
         let text = format!("package Main\nimport Lib\n\nfn ap(f: (int32) -> int32, a: int32) -> int32 {{ f(a) }}\nfn step(n: int32) -> int32 {{ {} }}\nfn main() {{\n    string_println(int32_to_string(step(10)));\n    string_println(int32_to_string(Lib::step(10)))\n}}\n//// FILE Lib/lib.gom\npackage Lib\n\nfn ap(f: (int32) -> int32, a: int32) -> int32 {{ f(a) }}\nfn step(n: int32) -> int32 {{ {} }}\n", main_body, lib_body);
         out.push((format!("same-binders-in-two-packages;{}", pn), text, expected.to_string()));
     }
+    // two packages whose functions bind one spelling at the same place in different ways (literal, computed
+    // value, reference cell, tuple pattern, parameter), with 0 or 1 binding before it in either package: each
+    // closure captures the binding of its own function
+    let roles: [(&str, &str, &str, &str, i64); 5] = [
+        // (name, parameter, statements binding k, use of k, value of the use when the argument is 10)
+        ("literal", "n", "let k = 3;", "k", 3),
+        ("computed", "n", "let k = n + 1;", "k", 11),
+        ("cell", "n", "let k = ref(5);", "ref_get(k)", 5),
+        ("tuple-pattern", "n", "let (k, w) = (n * 2, 0);", "k + w", 20),
+        ("parameter", "k", "", "k", 10),
+    ];
+    for (mn, mparam, mbind, muse, mval) in roles {
+        for (ln, lparam, lbind, luse, lval) in roles {
+            for (mpad, lpad) in [(0, 0), (0, 1), (1, 0), (1, 1)] {
+                let f = |param: &str, bind: &str, use_: &str, pad: i32, op: &str| {
+                    format!("fn step({p}: int32) -> int32 {{ {pad}{bind} let f = |x: int32| x {op} {u}; f({p}) }}", p = param, pad = if pad == 1 { "let pad = 0; " } else { "" }, bind = bind, op = op, u = use_)
+                };
+                let text = format!(
+                    "package Main\nimport Lib\n\n{}\nfn main() {{\n    string_println(int32_to_string(step(10)));\n    string_println(int32_to_string(Lib::step(10)))\n}}\n//// FILE Lib/lib.gom\npackage Lib\n\n{}\n",
+                    f(mparam, mbind, muse, mpad, "+"),
+                    f(lparam, lbind, luse, lpad, "*")
+                );
+                let expected = format!("{}\n{}\n", 10 + mval, 10 * lval);
+                out.push((format!("one-spelling-bound-differently-in-two-packages;main={};lib={};pads={}{}", mn, ln, mpad, lpad), text, expected));
+            }
+        }
+    }
     out
 }
 
@@ -577,7 +604,7 @@ impl Family for Closures {
         &["C08", "C01", "C02", "C03", "C04"]
     }
     fn rule(&self) -> &'static str {
-        "capture sets (all singles over {none, fn param, let, pattern variable, Ref cell, another closure, top-level fn, string let, function-typed parameter called in callee position only, local alias of a top-level fn called in callee position only}; selected pairs in quick, all pairs in thorough) x 27 flows of the closure value from creation to call (returned by a function directly, in a tuple, in a tuple nested two and three deep and in either position, in a tuple that a second function wraps in another; let, rebind, tuple element, nested tuple literal / tuple of a tuple-typed variable / tuple of a call result, struct field in first / second / third position, array element, Ref content, Vec element, returned from fn, returned from closure, argument, argument called twice, branch result of if/match, generic apply, …) x variants {plain, captured name shadowed after creation, captured Ref mutated from both sides, called twice} x nesting depth 1 (thorough: 1-2). plus 32 programs with closures inside a generic function instantiated at three types (captures: none / values whose types do not mention T / a value of type T; body: a trait call on the parameter in path or dot form, followed by a concatenation, used twice; one let-bound closure or two closures in one function). plus functions that return a closure: 3 functions (plain, generic, returning the result of a second such function) x 6 uses of the result (bound then called, called directly 'mk(3)(4)', two results, inside another closure, as a tuple element, in a loop) x 4 places of the function (before its caller, after it, in another file of the package, in an imported package), and 3 programs with a closure that returns a closure; 6 closures inside a generic function whose own signature does not mention the type parameter (only captures / callees do), at 3 types; 11 programs using one let-bound closure as a function value inside a block and again after it or in the sibling block (if, else, loop body / condition, match arms, another closure, a tuple built in a branch); 4 projects of two packages with the same binder names, indices and closure types but different bodies. non-trivial = programs whose closure captures at least one variable; distinct = distinct source text"
+        "capture sets (all singles over {none, fn param, let, pattern variable, Ref cell, another closure, top-level fn, string let, function-typed parameter called in callee position only, local alias of a top-level fn called in callee position only}; selected pairs in quick, all pairs in thorough) x 27 flows of the closure value from creation to call (returned by a function directly, in a tuple, in a tuple nested two and three deep and in either position, in a tuple that a second function wraps in another; let, rebind, tuple element, nested tuple literal / tuple of a tuple-typed variable / tuple of a call result, struct field in first / second / third position, array element, Ref content, Vec element, returned from fn, returned from closure, argument, argument called twice, branch result of if/match, generic apply, …) x variants {plain, captured name shadowed after creation, captured Ref mutated from both sides, called twice} x nesting depth 1 (thorough: 1-2). plus 32 programs with closures inside a generic function instantiated at three types (captures: none / values whose types do not mention T / a value of type T; body: a trait call on the parameter in path or dot form, followed by a concatenation, used twice; one let-bound closure or two closures in one function). plus functions that return a closure: 3 functions (plain, generic, returning the result of a second such function) x 6 uses of the result (bound then called, called directly 'mk(3)(4)', two results, inside another closure, as a tuple element, in a loop) x 4 places of the function (before its caller, after it, in another file of the package, in an imported package), and 3 programs with a closure that returns a closure; 6 closures inside a generic function whose own signature does not mention the type parameter (only captures / callees do), at 3 types; 11 programs using one let-bound closure as a function value inside a block and again after it or in the sibling block (if, else, loop body / condition, match arms, another closure, a tuple built in a branch); 4 projects of two packages with the same binder names, indices and closure types but different bodies; 100 projects of two packages whose functions bind one spelling in 5 ways (literal, computed value, cell, tuple pattern, parameter; every ordered pair) with 0 or 1 binding before it, each closure capturing the binding of its own function; projects of several packages run through whole-program compilation and through build + link. non-trivial = programs whose closure captures at least one variable; distinct = distinct source text"
     }
     fn cases(&self, tier: Tier) -> Box<dyn Iterator<Item = Value> + '_> {
         let mut v = Vec::new();
@@ -655,6 +682,25 @@ impl Family for Closures {
                     rep.tag("go:rejected");
                     for p in ["C08", "C02"] {
                         rep.findings.push(Finding { property: p, class: m.split(':').next().unwrap_or("go.invalid").to_string(), site: format!("{};goerr={}", site, normalise_msg(&m)), detail: m.clone(), replay: replay.clone() });
+                    }
+                }
+            }
+            // projects of several packages also through `build` of every package and `link` (the packages are
+            // lifted in another order there than under whole-program compilation)
+            if replay["source"].as_str().unwrap_or("").contains("//// FILE ") {
+                let full = replay["source"].as_str().unwrap_or("").to_string();
+                match run_text_separate(ctx, &full) {
+                    Ok(o) if lossy(&o.stdout) == expected && o.end == crate::oracle::NEnd::Ok => rep.tag("agree:build+link"),
+                    Ok(o) => {
+                        for p in ["C08", "C14"] {
+                            rep.findings.push(Finding { property: p, class: "sem.stdout".into(), site: format!("{};pipeline=build+link", site), detail: format!("expected {:?} got {:?}/{}", expected, lossy(&o.stdout), end_tag(&o.end)), replay: replay.clone() });
+                        }
+                    }
+                    Err((class, _)) if class.starts_with("machinery") => rep.tag("machinery:go-unsupported"),
+                    Err((class, msg)) => {
+                        for p in ["C08", "C14"] {
+                            rep.findings.push(Finding { property: p, class: class.clone(), site: format!("{};pipeline=build+link;msg={}", site, normalise_msg(&msg)), detail: msg.clone(), replay: replay.clone() });
+                        }
                     }
                 }
             }
